@@ -267,10 +267,15 @@ hwloc_synthetic_process_indexes(struct hwloc_synthetic_backend_data_s *data,
 	step = total / data->level[mydepth].totalwidth; /* number of objects below us */
 	nb = data->level[mydepth].totalwidth / data->level[prevdepth].totalwidth; /* number of us within parent */
 
+	if (!nb || !step) {
+	  /* a loop type below the indexed level */
+	  if (verbose)
+	    fprintf(stderr, "Invalid interleaving loop type below the indexed level in synthetic index '%s'\n", attr);
+	  free(loops);
+	  goto out_with_array;
+	}
 	loops[cur_loop].step = step;
 	loops[cur_loop].nb = nb;
-	assert(nb);
-	assert(step);
 	if (step < minstep)
 	  minstep = step;
 	nbs *= nb;
